@@ -638,7 +638,7 @@ class World:
                     if x is not e:
                         return self.ident(x, depth + 1, expand_ws)
             return e
-        if op == "out" and expand_ws and depth < 8:
+        if op == "out" and depth < 8:
             b = self.callee_body(e)
             if b is not None and b.is_fn():
                 x = self.expand(e)
@@ -677,3 +677,32 @@ class World:
                 i = E(i.op, na, i.info, i.site)
         memo[k] = (e, i)
         return i
+
+    EFFECT_PREFIXES = ("cw_storage_plus::", "cosmwasm_storage::", "cosmwasm_std::QuerierWrapper", "cosmwasm_std::Storage::",
+                       "cosmwasm_std::Api::", "cw2::")
+
+    def is_pure(self, body, depth=0):
+        """no storage access, query or api call in the body or its workspace callees"""
+        if body is None or not body.is_fn():
+            return False
+        memo = self.__dict__.setdefault("_pure", {})
+        if body.path in memo:
+            return memo[body.path]
+        memo[body.path] = False  # recursion guard
+        ok = True
+        for blk in body.calls():
+            c = blk.term.callee
+            key = callee_key(c)
+            if any(key.startswith(p) or strip_generics(c.path).startswith(p) for p in self.EFFECT_PREFIXES):
+                ok = False
+                break
+            g = self.prog.bodies.get(strip_generics(c.dpath))
+            if g is not None and g.is_fn() and depth < 8 and not self.is_pure(g, depth + 1):
+                ok = False
+                break
+        if ok:
+            for cb in self.prog.closures_of(body):
+                if not self.is_pure(cb, depth + 1):
+                    ok = False
+        memo[body.path] = ok
+        return ok
